@@ -819,3 +819,115 @@ Example roundtrip_outside_known_example :
      negb (known (fst tv) l true (snd tv)) &&
      json_eqb (returned (fst tv) l true (snd tv)) (expected (snd tv))) sample_inputs) L_all = true.
 Proof. vm_compute. reflexivity. Qed.
+
+(** * EventSink and ConditionEvaluator materialise a var-bytes cell identically
+    (EventSink asks [get_i64_at] first; a text that reads as an i64 is re-typed to the same Int64 by
+    add_payload_field) *)
+Definition plain_head (c : N) : Prop := c = 43%N \/ c = 45%N \/ is_digit c = true.
+
+Lemma ws_len_start_plain : forall c r, plain_head c -> ws_len_start (c :: r) = 0%nat.
+Proof.
+  intros c r H. unfold ws_len_start.
+  assert (Ha : is_ascii_ws c = false) by (unfold is_ascii_ws; destruct H as [->|[->|H]]; [reflexivity|reflexivity|unfold is_digit in H; lia]).
+  rewrite Ha.
+  assert (H2 : forall b, ws2 c b = false) by (intros b; unfold ws2; destruct H as [->|[->|H]]; [reflexivity|reflexivity|unfold is_digit in H; lia]).
+  assert (H3 : forall a b, ws3 c a b = false).
+  { intros a b. unfold ws3. destruct H as [->|[->|H]]; [reflexivity|reflexivity|].
+    unfold is_digit in H.
+    assert (X1 : (c =? 225)%N = false) by lia. assert (X2 : (c =? 226)%N = false) by lia. assert (X3 : (c =? 227)%N = false) by lia.
+    rewrite X1, X2, X3. reflexivity. }
+  destruct r as [|b r2]; [reflexivity|]. rewrite H2. destruct r2 as [|a r3]; [reflexivity|]. rewrite H3. reflexivity.
+Qed.
+
+Lemma ws_len_end_digit : forall d r, is_digit d = true -> ws_len_end (d :: r) = 0%nat.
+Proof.
+  intros d r H. unfold ws_len_end. unfold is_digit in H.
+  assert (Ha : is_ascii_ws d = false) by (unfold is_ascii_ws; lia). rewrite Ha.
+  destruct r as [|b r2]; [reflexivity|].
+  assert (H2 : ws2 b d = false) by (unfold ws2; lia). rewrite H2.
+  destruct r2 as [|a r3]; [reflexivity|].
+  assert (H3 : ws3 a b d = false).
+  { unfold ws3.
+    assert (X1 : (d =? 128)%N = false) by lia. assert (X2 : (d =? 159)%N = false) by lia.
+    assert (X3 : (d =? 168)%N = false) by lia. assert (X4 : (d =? 169)%N = false) by lia. assert (X5 : (d =? 175)%N = false) by lia.
+    assert (X6 : ((128 <=? d)%N && (d <=? 138)%N) = false) by lia.
+    rewrite X1, X2, X3, X4, X5, X6. rewrite !andb_false_r. reflexivity. }
+  rewrite H3. reflexivity.
+Qed.
+
+Lemma utrim_plain : forall c r d r',
+  plain_head c -> rev (c :: r) = d :: r' -> is_digit d = true -> utrim (c :: r) = c :: r.
+Proof.
+  intros c r d r' Hc Hr Hd. unfold utrim.
+  assert (E1 : utrim_start (c :: r) = c :: r).
+  { unfold utrim_start. cbn [length utrim_start_fuel]. rewrite ws_len_start_plain by exact Hc. reflexivity. }
+  rewrite E1. unfold utrim_end. rewrite Hr.
+  assert (E2 : utrim_end_fuel (length (c :: r)) (d :: r') = d :: r').
+  { cbn [length utrim_end_fuel]. rewrite ws_len_end_digit by exact Hd. reflexivity. }
+  rewrite E2, <- Hr, rev_involutive. reflexivity.
+Qed.
+
+Lemma all_digits_last : forall ds, ds <> [] -> all_digits ds = true -> forall pre,
+  exists d r', rev (pre ++ ds) = d :: r' /\ is_digit d = true.
+Proof.
+  intros ds Hne Hd pre. destruct (exists_last Hne) as (ds' & d & E). subst ds.
+  rewrite all_digits_app in Hd. apply andb_true_iff in Hd. destruct Hd as [_ Hd]. cbn [all_digits] in Hd.
+  apply andb_true_iff in Hd. destruct Hd as [Hd _].
+  exists d, (rev (pre ++ ds')). split; [|exact Hd]. rewrite app_assoc, rev_app_distr. reflexivity.
+Qed.
+
+Lemma digits_opt_some : forall s v, digits_opt s = Some v -> s <> [] /\ all_digits s = true /\ v = digits_val s 0.
+Proof.
+  intros s v H. unfold digits_opt in H. destruct s as [|c r]; [discriminate|].
+  destruct (all_digits (c :: r)) eqn:E; [|discriminate]. inversion H. repeat split. discriminate.
+Qed.
+
+Lemma kw_tests_plain : forall c r, plain_head c ->
+  bytes_eqb (c :: r) kw_true = false /\ bytes_eqb (c :: r) kw_false = false /\ bytes_eqb (c :: r) kw_null = false.
+Proof.
+  intros c r H.
+  assert (H1 : (c =? 116)%N = false) by (destruct H as [->|[->|H]]; [reflexivity|reflexivity|unfold is_digit in H; lia]).
+  assert (H2 : (c =? 102)%N = false) by (destruct H as [->|[->|H]]; [reflexivity|reflexivity|unfold is_digit in H; lia]).
+  assert (H3 : (c =? 110)%N = false) by (destruct H as [->|[->|H]]; [reflexivity|reflexivity|unfold is_digit in H; lia]).
+  change kw_true with [116; 114; 117; 101]%N. change kw_false with [102; 97; 108; 115; 101]%N. change kw_null with [110; 117; 108; 108]%N.
+  cbn [bytes_eqb]. rewrite H1, H2, H3. repeat split; reflexivity.
+Qed.
+
+Theorem sink_agrees : forall s z, parse_i64 s = Some z -> add_payload_field s = SInt z.
+Proof.
+  intros s z H. destruct s as [|c r]; [cbn in H; discriminate|].
+  (* shape of the text *)
+  assert (Hshape : plain_head c /\ exists d r', rev (c :: r) = d :: r' /\ is_digit d = true).
+  { destruct (N.eq_dec c 45) as [->|Hm].
+    - rewrite parse_i64_minus in H. destruct (digits_opt r) as [v|] eqn:E; [|discriminate].
+      destruct (digits_opt_some _ _ E) as (Hne & Hd & _). split; [right; left; reflexivity|].
+      apply (all_digits_last r Hne Hd [45%N]).
+    - destruct (N.eq_dec c 43) as [->|Hp].
+      + rewrite parse_i64_plus in H. destruct (digits_opt r) as [v|] eqn:E; [|discriminate].
+        destruct (digits_opt_some _ _ E) as (Hne & Hd & _). split; [left; reflexivity|].
+        apply (all_digits_last r Hne Hd [43%N]).
+      + rewrite parse_i64_nosign in H by assumption. destruct (digits_opt (c :: r)) as [v|] eqn:E; [|discriminate].
+        destruct (digits_opt_some _ _ E) as (Hne & Hd & _). split; [right; right; eapply all_digits_head, Hd|].
+        apply (all_digits_last (c :: r) Hne Hd []). }
+  destruct Hshape as (Hc & d & r' & Hr & Hd).
+  unfold add_payload_field. cbv zeta. rewrite ints_branch, (utrim_plain c r d r' Hc Hr Hd).
+  destruct (kw_tests_plain c r Hc) as (K1 & K2 & K3). rewrite K1, K2, K3.
+  destruct (N.eq_dec c 45) as [->|Hm].
+  - rewrite parse_u64_minus, H. reflexivity.
+  - assert (Hu : parse_u64 (c :: r) = Some z /\ z <= i64_max).
+    { destruct (N.eq_dec c 43) as [->|Hp].
+      - rewrite parse_i64_plus in H. rewrite parse_u64_plus. destruct (digits_opt r) as [v|]; [|discriminate].
+        destruct (Z.leb_spec v i64_max); [|discriminate]. inversion H. subst v.
+        destruct (Z.leb_spec z u64_max); [split; [reflexivity|assumption]|unfold i64_max, u64_max in *; lia].
+      - rewrite parse_i64_nosign in H by assumption. rewrite parse_u64_noplus by assumption.
+        destruct (digits_opt (c :: r)) as [v|]; [|discriminate].
+        destruct (Z.leb_spec v i64_max); [|discriminate]. inversion H. subst v.
+        destruct (Z.leb_spec z u64_max); [split; [reflexivity|assumption]|unfold i64_max, u64_max in *; lia]. }
+    destruct Hu as [Hu Hle]. rewrite Hu. unfold u64_scalar. destruct (Z.leb_spec z i64_max); [reflexivity|lia].
+Qed.
+
+Corollary read_cell_sink_agrees : forall c, read_cell_sink c = read_cell c.
+Proof.
+  intros [s | o | o | o | o]; try reflexivity. cbn [read_cell_sink read_cell].
+  destruct (parse_i64 s) as [z|] eqn:E; [|reflexivity]. symmetry. apply sink_agrees, E.
+Qed.
